@@ -194,7 +194,7 @@ impl Prop for C15 {
         }
     }
     fn rule(&self) -> String {
-        "generated per target (au_decode, hdlc_bits, il2p_bits(+sync tags), sigmf_meta, sigmf_archive, stream_to_pdu(+tag scripts), vec_to_stream, wpcr, midpointer, float_blocks {SymbolSync, ZeroCrossing, QuadratureDemod, FirFilter, FastFM, BinarySlicer on NaN/inf/subnormal/huge values}, sample_parse): uniformly random bytes, structured bytes (runs of 0x00/0xff/0x7e), and mutations (byte overwrite, truncation) of valid seed inputs (the encoder's AU stream, testdata/aprs.au, valid SigMF metadata, valid tar archives in both member orders, with whole, truncated and empty data members; every archive is opened with repeat 1, 2 and 0); enumerated degenerate bursts and AU header field mutations; thorough adds coverage-guided libFuzzer+ASan campaigns on the same entry functions (/verif/harness/fuzz). The bytes are decoded into (parameters, content, drip schedule), fresh blocks are built, driven to quiescence under a step bound. Oracle inside the target: no unwind out of work()/constructor/parser (an Err is fine), no 6x idle 'Again', a finite source with a drained output reaches EOF instead of stalling, and a block whose input has ended and is drained becomes retirable (either would be a busy loop under the multithreaded runner), quiescence within the step bound; under libFuzzer additionally ASan silence. Non-trivial: input longer than 12 bytes (reaches past the first header/length checks) or an enumerated degenerate case; distinct = hash of the case.".into()
+        "generated per target (au_decode, hdlc_bits, il2p_bits(+sync tags), sigmf_meta, sigmf_archive, stream_to_pdu(+tag scripts), vec_to_stream, wpcr, midpointer, float_blocks {SymbolSync, ZeroCrossing, QuadratureDemod, FirFilter, FastFM, BinarySlicer on NaN/inf/subnormal/huge values}, sample_parse): uniformly random bytes, structured bytes (runs of 0x00/0xff/0x7e), and mutations (byte overwrite, truncation) of valid seed inputs (the encoder's AU stream, testdata/aprs.au, valid SigMF metadata, valid tar archives in both member orders, with whole, truncated and empty data members; every archive is opened with repeat 1, 2 and 0); enumerated degenerate bursts and AU header field mutations; thorough adds coverage-guided libFuzzer+ASan campaigns on the same entry functions (/verif/harness/fuzz). The bytes are decoded into (parameters, content, drip schedule), fresh blocks are built, driven to quiescence under a step bound. The targets run with the log level at `trace`, so that the arguments of the library's log statements are evaluated. Oracle inside the target: no unwind out of work()/constructor/parser (an Err is fine), no 6x idle 'Again', a finite source with a drained output reaches EOF instead of stalling, and a block whose input has ended and is drained becomes retirable (either would be a busy loop under the multithreaded runner), quiescence within the step bound; under libFuzzer additionally ASan silence. Non-trivial: input longer than 12 bytes (reaches past the first header/length checks) or an enumerated degenerate case; distinct = hash of the case.".into()
     }
     fn assumptions(&self) -> Vec<String> {
         vec![
